@@ -20,7 +20,7 @@ ASSUMPTIONS = [
     "'one common non-zero scalar' is stated division-free: accepted amplitudes are pairwise proportional to the reference entries, vanish outside the qubit subspace for qubits without a post-selection rule, and their squared norm is non-zero",
 ]
 BOUNDS = {
-    "quick": "2 qubits: every ordered pair of operations with at least one multi-qubit gate (cx/cz in both orientations, swap) plus single-gate programs, both values of allow_post_selection; 3 qubits: pairs of multi-qubit gates (incl. non-adjacent cx/cz, ccx/ccz in all target positions) with allow_post_selection=True; programs whose converted circuit carries more than 4 photons are outside the bound",
+    "quick": "2 qubits: every ordered pair of operations with at least one multi-qubit gate (cx/cz in both orientations, swap) plus single-gate programs, both values of allow_post_selection; 3 qubits: pairs of multi-qubit gates (incl. non-adjacent cx/cz, ccx/ccz in all target positions) and triples entangling-swap-entangling with allow_post_selection=True; programs whose converted circuit carries more than 4 photons are outside the bound",
     "thorough": "programs of length 3 on 2 qubits, photon bound 5",
 }
 OUTSIDE = "programs above the photon bound (heralded-only conversions of several entangling gates): covered only through C02 (wiring), C13 (each gate) and the stated composition lemma (a heralded gate that is exact and leak-free on the qubit subspace composes multiplicatively); more than 3 qubits"
@@ -210,6 +210,21 @@ def harnesses(tier):
     for a in m3:
         for b in m3:
             cases.append(dict(n=3, program=[a, b], allow=True))
+    # 3 qubits, length 3: two entangling gates with a swap between them (a swap can carry a
+    # qubit that looks free onto the wires of the later gate)
+    ent3 = [op for op in m3 if op[0] != "swap"]
+    swaps3 = [op for op in m3 if op[0] == "swap"]
+    for a in ent3:
+        for sw in swaps3:
+            for b in ent3:
+                if tier == "quick" and (a[0] in ("ccx",) and b[0] in ("ccx",)):
+                    continue
+                cases.append(dict(n=3, program=[a, sw, b], allow=True))
+    if tier != "quick":
+        for a in ent3:
+            for b in ent3:
+                for c in ent3[::3]:
+                    cases.append(dict(n=3, program=[a, b, c], allow=True))
     if tier != "quick":
         for a in m2:
             for b in m2:
